@@ -6,7 +6,10 @@ EXTENDS CmdLineLattice, Json, IOUtils, SequencesExt
 \* IOEnv.LEN = "num": the numeric vectors (counts and seeds over the whole documented range and outside it)
 \* IOEnv.LEN = "words": the word registry (every pair of words of <= IOEnv.WLEN letters) as probe, and every vector of one filter
 \*                      option whose text is a word (pair of words) of <= IOEnv.FLEN letters
+\*                    that run also writes IOEnv.CLOCKOUT: rows [tok, clock] - the vectors whose meaning involves the clock, each at
+\*                    every clock reading (ClockRows)
 IsWords == IOEnv.LEN = "words"
+ASSUME IOEnv.LEN # "num" \/ ndJsonSerialize(IOEnv.CLOCKOUT, SetToSeq(ClockRows))
 ASSUME ndJsonSerialize(IOEnv.PROBE, <<[tests |-> IF IsWords THEN SetToSeq(WordTests(atoi(IOEnv.WLEN))) ELSE Probe]>>)
 ASSUME ndJsonSerialize(IOEnv.OUT, SetToSeq({ [tok |-> v] : v \in (IF IOEnv.LEN = "num" THEN NumVectors
                                                                   ELSE IF IsWords THEN WordVectors(atoi(IOEnv.FLEN))
